@@ -4,13 +4,18 @@ families
   record   Monitor(k) called n times: len, x[i], y[i], id[i], m[i] against the recorded values (nan-aware equality)
   ops      random sequences of call / extend / prepend / + / slice / int index / fancy index on a pool of monitors,
            checked after every operation against a plain-Python list model; the argument monitor is never altered
-  log      LoggingMonitor(interval, file) -> munge.logfile_reader / munge.read_history
+  log      LoggingMonitor(interval, file) / VerboseLoggingMonitor(interval, yinterval, xinterval, file) called with
+           ids drawn from one of the pools LOG_IDS (never an id, always the boundary id 0, ensemble member indices
+           0..3, None mixed with 0 / small / negative / large ints) -> munge.logfile_reader / munge.read_history with
+           iter=True: the iterations (step,) / (step, id) INCLUDING the ids, the parameters and the costs come back
   files    munge.write_raw_file / write_support_file / write_converge_file -> read_raw_file / read_support_file /
            read_converge_file / read_history
 k-scaling: exact for k in (None, 1, -1); for other k the statement is "to rounding": rel 1e-9 on moderate values.
 """
+import io
 import os
 import copy
+import contextlib
 import math
 import shutil
 import random
@@ -24,6 +29,10 @@ INF, NAN = float('inf'), float('nan')
 SPECIAL = [0.0, -0.0, 1.5, -2.25, INF, -INF, NAN, 5e-324, -5e-324, 1e308, -1e308, 1e-300, 0.1, 3.0]
 MODERATE = [0.0, 1.5, -2.25, INF, -INF, NAN, 0.1, 3.0, 1e-3, -7e2]
 KS = [None, None, 1, -1, 2.0, 0.5, 3.0, 0.1]
+# id pools of the log family: an id is None (recorded without an id) or an int (e.g. the index of an ensemble member,
+# which starts at 0); every int -- the falsy 0 included -- must come back as (step, id), None as (step,)
+LOG_IDS = {'legacy': (None, None, 2, 5), 'none': (None,), 'zero': (0,), 'zero-or-none': (None, 0), 'member': (0, 1, 2, 3),
+           'mixed': (None, 0, 0, 1, 2, 5, 7, -1, -3, 10 ** 6)}
 _ENV = {'np': np, 'inf': INF, 'nan': NAN, 'array': np.array, 'float64': np.float64, 'int64': np.int64}
 
 
@@ -230,22 +239,30 @@ def same_snap(a, b):
 
 # ----------------------------------------------------------------------------- family: log
 def check_log(res, c, tmp):
-    from mystic.monitors import LoggingMonitor
+    from mystic.monitors import LoggingMonitor, VerboseLoggingMonitor
     from mystic import munge
     rng = random.Random(c['seed'])
     k, interval, n, d = c['k'], c['interval'], c['n'], c['d']
+    idmode, kind = c.get('ids', 'legacy'), c.get('kind', 'log')
     pool = SPECIAL if trivial(k) else MODERATE
     rel = rel_of(k)
     fn = os.path.join(tmp, 'log_%d.txt' % c['seed'])
-    m = LoggingMonitor(interval, fn, k=k) if k is not None else LoggingMonitor(interval, fn)
+    kw = {} if k is None else {'k': k}
+    if kind == 'verbose':                          # same file format; additionally prints every yinterval / xinterval
+        yint, xint = rng.choice([0, 1, 3]), rng.choice([0, 0, 2])
+        m = VerboseLoggingMonitor(interval, yint, xint, fn, **kw)
+    else:
+        m = LoggingMonitor(interval, fn, **kw)
     model = []
-    for _ in range(n):
-        x, y, id_ = gen_record(rng, d, pool, xkinds=('list', 'tuple', 'array', 'npscalars'),
-                               ykinds=('float', 'npfloat', 'int', 'vlist', 'varray'), ids=(None, None, 2, 5))
-        api(m, x, y, id=id_)
-        model.append((copy.deepcopy(x), copy.deepcopy(y), id_))
+    with contextlib.redirect_stdout(io.StringIO()):
+        for _ in range(n):
+            x, y, id_ = gen_record(rng, d, pool, xkinds=('list', 'tuple', 'array', 'npscalars'),
+                                   ykinds=('float', 'npfloat', 'int', 'vlist', 'varray'), ids=LOG_IDS[idmode])
+            # an id of None is "no id": passing it and leaving it out are the same recording
+            api(m, x, y, id=id_) if id_ is not None or rng.random() < 0.5 else api(m, x, y)
+            model.append((copy.deepcopy(x), copy.deepcopy(y), id_))
     key = 'C20/bounded/log'
-    res.case('%s|k=%r|interval=%d|d=%d|n=%d' % (key, k, interval, d, min(n, 3)), nontrivial=n > 0, sample=c)
+    res.case('%s|kind=%s|ids=%s|k=%r|interval=%d|d=%d|n=%d' % (key, kind, idmode, k, interval, d, min(n, 3)), nontrivial=n > 0, sample=c)
     compare(res, key + '/monitor', m, model, rel, c, 'LoggingMonitor in memory')
     logged = [(i, r) for i, r in enumerate(model) if i % interval == 0]
     want_steps = [(i,) if r[2] is None else (i, r[2]) for i, r in logged]
@@ -349,7 +366,8 @@ def gen_cases(seed, tier):
     cs += [{'family': 'ops', 'seed': rng.randrange(10 ** 9), 'mixk': rng.random() < 0.5, 'homog': rng.random() < 0.5,
             'nops': rng.choice([6, 12, 25])} for _ in range(no)]
     cs += [{'family': 'log', 'seed': rng.randrange(10 ** 9), 'k': rng.choice(KS), 'interval': rng.choice([1, 1, 2, 3, 5]),
-            'n': rng.choice([0, 1, 2, 4, 9]), 'd': rng.choice([1, 2, 4])} for _ in range(nl)]
+            'n': rng.choice([0, 1, 2, 4, 9]), 'd': rng.choice([1, 2, 4]), 'ids': rng.choice(sorted(LOG_IDS)),
+            'kind': rng.choice(['log', 'log', 'verbose'])} for _ in range(nl)]
     cs += [{'family': 'files', 'seed': rng.randrange(10 ** 9), 'k': rng.choice([None, None, -1, 2.0]), 'n': rng.choice([1, 2, 3, 6]),
             'd': rng.choice([1, 2, 3]), 'ids': rng.choice(['none', 'same', 'mixed', 'some']), 'numpy': rng.random() < 0.3,
             'vector': rng.random() < 0.25} for _ in range(nf)]
@@ -392,10 +410,11 @@ def run(tier='quick', seed=0):
     cs = gen_cases(seed, tier)
     res = Result(rule='seeded cases: record (n in 0..12 calls, x as list/tuple/array/numpy scalars/scalar of 1..5 entries, y python/'
                  'numpy scalar or 2..3-vector, id None/int, k in %r; values from %r + random); ops (6..25 random operations on 3 '
-                 'monitors, model compared after each); log (interval 1..5, n 0..9, d 1..4); files (3 writers x 4 readers, n 1..6, '
+                 'monitors, model compared after each); log (LoggingMonitor / VerboseLoggingMonitor, interval 1..5, n 0..9, d 1..4, '
+                 'id pools %r, read back with iter=True); files (3 writers x 4 readers, n 1..6, '
                  'd 1..3, id modes none/same/mixed/some, k None/-1/2). distinct = family + its configuration class. Not exercised: '
                  'x.extend(x) / x.prepend(x) (the monitor passed is the target; prepend(self) does not return).'
-                 % (KS[1:], SPECIAL), bound='<= 12 records per call sequence, <= 25 operations, <= 5 parameters')
+                 % (KS[1:], SPECIAL, sorted(LOG_IDS.values(), key=repr)), bound='<= 12 records per call sequence, <= 25 operations, <= 5 parameters')
     for part in pmap(work, [cs[i::64] for i in range(64)]):
         res.merge(part)
     return res.out()
